@@ -23,6 +23,7 @@ static SEEN_B: AtomicUsize = AtomicUsize::new(0xFFFF);
 struct MockDriver {
     which: u8,
     faulted: bool,
+    fail_write: bool,
 }
 
 impl IoDriver for MockDriver {
@@ -38,6 +39,9 @@ impl IoDriver for MockDriver {
             CALLS_B.fetch_add(1, Ordering::SeqCst);
             SEEN_B.store(first, Ordering::SeqCst);
         }
+        if self.fail_write {
+            return Err(RuntimeError::NullReference); // any driver error
+        }
         Ok(())
     }
     fn health(&self) -> IoDriverHealth {
@@ -52,24 +56,27 @@ impl IoDriver for MockDriver {
 // (io.safe_state.drivers -- the same harness with a non-empty safe state -- gives no CBMC verdict within 60 min;
 // IoSafeState::apply itself is proved by the Verus unit io.safe_state.loop)
 
-// the driver loop alone (empty safe state): every driver is handed the image once, whatever its health
-// @unit id=io.safe_state.driver_loop props=C08 tier=quick kind=bounded bound="2 drivers (symbolic health), empty safe state, 1-byte image" timeout=1500 fn=IoSubsystem::apply_safe_state
+// the driver loop alone (empty safe state): every driver is handed the image once, whatever its health AND
+// whatever the other drivers answer -- "that image is delivered to every driver before the fault is
+// reported" (a driver that refuses the write must not keep the safe image from the drivers after it)
+// @unit id=io.safe_state.driver_loop props=C08 tier=quick kind=bounded bound="2 drivers (symbolic health, symbolic write failure), empty safe state, 1-byte image" timeout=1500 fn=IoSubsystem::apply_safe_state
 #[kani::proof]
 #[kani::stub(std::hash::RandomState::new, fixed_rs)]
 #[kani::unwind(8)]
 fn io_safe_state_driver_loop() {
     let mut io = IoSubsystem::new();
     io.resize(0, 1, 0);
-    let fa: bool = kani::any();
-    let fb: bool = kani::any();
-    io.add_driver("a", Box::new(MockDriver { which: 0, faulted: fa }));
-    io.add_driver("b", Box::new(MockDriver { which: 1, faulted: fb }));
+    let (fa, fb): (bool, bool) = (kani::any(), kani::any());
+    let (wa, wb): (bool, bool) = (kani::any(), kani::any());
+    io.add_driver("a", Box::new(MockDriver { which: 0, faulted: fa, fail_write: wa }));
+    io.add_driver("b", Box::new(MockDriver { which: 1, faulted: fb, fail_write: wb }));
     let r = io.apply_safe_state();
     let ok = matches!(&r, Ok(()));
     std::mem::forget(r);
-    assert!(ok);
-    assert!(CALLS_A.load(Ordering::SeqCst) == 1 && CALLS_B.load(Ordering::SeqCst) == 1, "every driver receives the image exactly once, whatever its health");
+    assert!(CALLS_A.load(Ordering::SeqCst) == 1 && CALLS_B.load(Ordering::SeqCst) == 1, "every driver receives the image exactly once, whatever its health and whatever another driver answered");
+    assert!(ok == (!wa && !wb), "a driver's refusal is reported to the caller");
     kani::cover!(fa && !fb);
-    kani::cover!(!fa && fb);
+    kani::cover!(wa && !wb);
+    kani::cover!(!wa && wb);
     std::mem::forget(io);
 }
